@@ -308,6 +308,9 @@ def simpleImpl (id : Nat) (args : List VRes) : EM (Option Val) :=
   | 10, [.ok (.bytes a), .error _] => .ok (some (.int ((a.length : Int) - 1)))
   | 10, [.error _, _] => .ok none
   | 11, [] => .ok (some (.bool true))                                  -- nil0()
+  | 12, [.ok (.bool c), x] =>                                          -- when(cond, x)
+    .ok (if c then (match x with | .ok v => some v | .error _ => none) else none)
+  | 12, [.error _, _] => .ok none
   | _, _ => .error .badFunction
 
 /-- `concat_impl` -/
